@@ -231,6 +231,11 @@ def gen_flux2ab(src):
         raise Unrecognised('sdssflux2ab: rows, cols = flux.shape')
     if len(corr) != 5:
         raise Unrecognised('correction vector length %d' % len(corr))
+    # the two boolean keywords: `magnitude=False, ivar=False`, selected by their truth value (`if magnitude:` / `if ivar:` matched above)
+    names = [a.arg for a in fn.args.args]
+    dflt = [d.value if isinstance(d, ast.Constant) else d for d in fn.args.defaults]
+    if names != ['flux', 'magnitude', 'ivar'] or dflt != [False, False] or not all(d is False for d in dflt) or fn.args.kwonlyargs or fn.args.vararg or fn.args.kwarg:
+        raise Unrecognised('sdssflux2ab signature %s defaults %s' % (names, [ast.dump(d) if isinstance(d, ast.AST) else d for d in dflt]))
     # factor = B ** (E)   with constant base
     if not (isinstance(factor, ast.BinOp) and isinstance(factor.op, ast.Pow) and isinstance(factor.left, ast.Constant)):
         raise Unrecognised('factor is not const ** expr')
